@@ -1031,8 +1031,8 @@ def lines_stream(rep, tier, rnd):
                 n_dev += mult
                 sym, what, f15 = LN.symptom(d, t)
                 rep.stat("lines", "deviation:%s:%s%s" % (d["profile"], sym, ":F15-shaped" if f15 else ""), mult)
-                if f15 and p.get("racy"):
-                    key = "C20/%s/_name-reread" % sorted(set(p["racy"].values()))[0]
+                if f15 and p.get("racy", {}).get(f15):
+                    key = "C20/%s/_name-reread" % p["racy"][f15]
                 else:
                     key = "C20/lines/%s/%s" % (LN.site_of(d), sym)
                 rep.finding(key, "%s, thread %d (%s, classes %s): %s" % (d["profile"], t, d["ops"][t][0],
@@ -1109,6 +1109,17 @@ def run(rep, tier):
     else:
         rep.cov["lines_racy_fields"] = LN.set_racy(trees, cls2["racy"])
     cache_stream(rep, ca, cls2, model_ok)
+
+    # ---- census: which module-level / class-level state do the operations write at all?
+    census_unknown, census_all, census_ops = LN.shared_write_census(ca)
+    rep.cov["shared_state_written_by_operations"] = ["%s %s.%s" % k for k in census_all]
+    rep.count("census", census_ops, "ops")
+    rep.obligation("regen:shared-state-census", not census_unknown,
+                   "%d operations over %d class profiles write %d module-level / class-level names, all of them caches of the "
+                   "generated table or attributes installed by the listed class-install functions"
+                   % (census_ops, len(LN.PROFILES), len(census_all)) if not census_unknown
+                   else "module-level / class-level state written by operations and not accounted for by the generated tables: "
+                   + "; ".join("%s %s.%s" % k for k in census_unknown[:6]))
 
     # ---- dynamic cross-check of the generated table
     extra, unknown = access_table_check(rep, sa)
@@ -1245,6 +1256,10 @@ def run(rep, tier):
     if unknown and not any(not v["no_input"] for v in rep.violations):
         rep.broken("regen:shared-access-complete",
                    "writes to shared Field objects outside the generated table and no deviating schedule found: %r" % list(unknown)[:5])
+    if census_unknown and not any(not v["no_input"] for v in rep.violations):
+        rep.broken("regen:shared-state-census",
+                   "operations write shared module-level / class-level state that no generated table accounts for, and no deviating "
+                   "schedule was found: " + "; ".join("%s %s.%s" % k for k in census_unknown[:6]))
     if undecided and not any(not v["no_input"] for v in rep.violations):
         rep.broken("regen:shared-access-recognised", "validators whose shared accesses the model cannot decide, and no deviating "
                    "schedule found: " + ", ".join(undecided))
